@@ -1452,7 +1452,10 @@ impl AstNode for VariantCase {
     fn parse(pair: Pair<Rule>) -> Result<Self, Error> {
         let case = match pair.as_rule() {
             Rule::variant_case_struct => Self::struct_case_parse(pair),
-            Rule::variant_case_tuple => todo!("parse variant case tuple"),
+            Rule::variant_case_tuple => Err(Error::at(
+                &pair,
+                "tuple variant cases are not supported yet",
+            )),
             Rule::variant_case_unit => Self::unit_case_parse(pair),
             x => unreachable!("Unexpected rule in datum_variant: {:?}", x),
         }?;
@@ -1502,6 +1505,7 @@ impl AstNode for ChainSpecificBlock {
                 let block = crate::cardano::CardanoBlock::parse(block)?;
                 Ok(ChainSpecificBlock::Cardano(block))
             }
+            Rule::bitcoin_block => Err(Error::at(&block, "bitcoin blocks are not supported yet")),
             x => unreachable!("Unexpected rule in chain_specific_block: {:?}", x),
         }
     }
